@@ -61,9 +61,11 @@ def check(ctx):
             vs = util.variant_switch(body, dg, x)
             c = D.cmp_of_switch(body, dg, x)
             is_iter_end = bool(vs) and "next" in show(vs[0]) and vs[1].get(0, vs[2]) == y
-            is_sentinel = bool(c) and (("gconst", "u32::MAX") in (strip_casts(c[1]), strip_casts(c[2])) or ("const", 0xFFFFFFFF) in (strip_casts(c[1]), strip_casts(c[2])))
+            se = util.sentinel_edges(body, dg, x)
+            is_sentinel = se is not None and se[0] == y and se[0] != se[1]
             good = good and (is_iter_end or is_sentinel)
         ctx.ob("R07.2", f"{k}|loop-ends-only-at-end-of-list", good and bool(exits), body.loc(h), "the sweep stops only when the list is exhausted or at the u32::MAX sentinel (no early break)")
+        ctx.ob("R07.2", f"{k}|cancels-live-entries", util.on_live_side_of_sentinel_tests(body, dg, cb, body.loops[h]), body.loc(cb), "the cancel happens where the entry is a stream id, not the sentinel")
         lo, hi = util.count_per_iteration(body, h, lambda b: b == cb)
         ctx.ob("R07.2", f"{k}|one-cancel-per-iteration", (lo, hi) == (1, 1), body.loc(cb), f"{lo}..{hi} cancels per completed iteration")
     # ------------------------------------------------------------------ R07.3 poll protocol (shared with C04)
